@@ -179,7 +179,7 @@ def make_e2e_contract(fam):
     for meth in ("pdf", "cdf", "icdf"):
         sub = [c for c in cases if c["meth"] == meth]
         cls = type(f"CondE2E_{fam}_{meth}", (E2E,), {})
-        out.append(contract(CD + "." + meth, ["C08", "C11", "C19", "C06", "C01"], sub, name=f"cond.e2e.{fam}.{meth}")(cls))
+        out.append(contract(CD + "." + meth, ["C08", "C11", "C19", "C06", "C01"] + (["C02"] if meth == "cdf" else []), sub, name=f"cond.e2e.{fam}.{meth}")(cls))
     return out
 
 
@@ -254,7 +254,7 @@ def make_pv_contract(fam):
             cx.oblige("frame.param_values", not self.cond.writes, "frame")
     PV.__name__ = f"CondPV_{fam}"
     cases = [dict(status=s, given=gk) for s in statuses(ps, "fd") for gk in ("vector", "scalar")]
-    return contract(CD + "._get_param_values", ["C08", "C11", "C19", "C06", "C01"], cases, name=f"cond.param_values.{fam}")(PV)
+    return contract(CD + "._get_param_values", ["C08", "C11", "C19", "C06", "C01", "C02"], cases, name=f"cond.param_values.{fam}")(PV)
 
 
 for _fam in ("WeibullDistribution", "LogNormalDistribution", "ExponentiatedWeibullDistribution"):
